@@ -162,6 +162,12 @@ def random_unitary_circuit(cirq, rng, *, max_wires=5, qudits=False, max_ops=10, 
                 3: [cirq.CCX, cirq.CSWAP, cirq.QubitPermutationGate(perm), cirq.ControlledGate(cirq.SWAP, control_values=[0]),
                     cirq.ControlledGate(cirq.X, num_controls=2, control_values=[0, 1])],
             }[k]
+            if k == 3 and rng.random() < 0.35:
+                # control values given as a sum of products (not a per-qubit product), e.g. XOR / equality controls
+                terms = rng.sample([[0, 0], [0, 1], [1, 0], [1, 1]], rng.choice([1, 2, 2, 3]))
+                g = [cirq.ControlledGate(cirq.X, control_values=cirq.SumOfProducts(terms))]
+            elif k == 3 and rng.random() < 0.15:
+                g = [cirq.ControlledGate(cirq.X, control_values=cirq.ProductOfSums([(0, 1), (rng.choice([0, 1]),)]))]
             ops.append(rng.choice(g).on(*targets))
         elif any(d != 2 for d in tdims):
             ops.append(qudit_gate(cirq, rng, tdims).on(*targets))
